@@ -32,6 +32,7 @@
 
 //! Builder for decision table evaluators.
 
+use crate::errors::*;
 use dmntk_common::Result;
 use dmntk_feel::context::FeelContext;
 use dmntk_feel::values::{Value, Values};
@@ -288,9 +289,22 @@ fn parse_decision_table(scope: &Scope, decision_table: &DecisionTable) -> Result
       component_names.push(dmntk_feel_parser::parse_name(scope, name, false)?);
     }
   }
+  // a decision table has at least one output clause
+  if output_values_nodes.is_empty() {
+    return Err(err_decision_table_without_output_clause());
+  }
   // parse all rules
   let mut parsed_rules = vec![];
   for rule in &decision_table.rules {
+    // every rule has one entry per input clause and one entry per output clause
+    if rule.input_entries.len() != input_expressions_and_values.len() || rule.output_entries.len() != output_values_nodes.len() {
+      return Err(err_decision_table_rule_size_mismatch(
+        rule.input_entries.len(),
+        rule.output_entries.len(),
+        input_expressions_and_values.len(),
+        output_values_nodes.len(),
+      ));
+    }
     // parse input clause
     let mut input_entries_evaluators = vec![];
     for (i, (input_expression, input_values)) in input_expressions_and_values.iter().enumerate() {
